@@ -259,3 +259,50 @@ def check(ctx, rep: Report):
     rep.oblige("C09.SIG", "InitMethod.build_method", not bad, "; ".join(bad))
     for x in bad:
         rep.violate(Violation("C09.SIG", f"C09.SIG|{x[:50]}", f"InitMethod.build_method: {x}", f"{m[0].module.relpath}:{b.lineno}", "InitMethod.build_method"))
+
+
+    # ---- HOOK: __post_init__ is resolved along the MRO of the class being decorated
+    rep.rules["C09.HOOK"] = "SpecClassMetadata.for_class takes post_init from getattr(spec_cls, '__post_init__', None) (MRO lookup), on every construction path"
+    fc = ctx.p.find_function("SpecClassMetadata.for_class")
+    ctors = [n for n in ast.walk(fc.node) if isinstance(n, ast.Call) and ast.unparse(n.func) == "cls"]
+    bad = []
+    if not ctors:
+        bad.append("no metadata construction found")
+    for n in ctors:
+        pi = [k for k in n.keywords if k.arg == "post_init"]
+        if not pi:
+            bad.append("post_init is not passed")
+            continue
+        v = pi[0].value
+        okv = isinstance(v, ast.Call) and ast.unparse(v.func) == "getattr" and len(v.args) >= 2 and ast.unparse(v.args[0]) == "spec_cls" \
+            and isinstance(v.args[1], ast.Constant) and v.args[1].value == "__post_init__"
+        if not okv:
+            bad.append(f"post_init comes from `{ast.unparse(v)}`: a hook supplied by a later base / a plain mixin is not found (never runs) or a parent's hook is used instead of the MRO's")
+    rep.oblige("C09.HOOK", "SpecClassMetadata.for_class", not bad, "; ".join(bad))
+    for b_ in sorted(set(bad)):
+        rep.violate(Violation("C09.HOOK", f"C09.HOOK|{b_[:60]}", f"SpecClassMetadata.for_class: {b_}", f"{fc.module.relpath}:{fc.node.lineno}", "SpecClassMetadata.for_class"))
+
+    # ---- NEAREST: the default comes from the nearest definition along the MRO (shared with C08.OWNER / C08.MRO)
+    rep.rules["C09.NEAREST"] = "lookup_default_value walks the MRO and stops only at the owner or at a class that defines the name"
+    from .c08 import fr_worker
+    r0 = pmap(fr_worker, ["lookup_default_value"])[0]
+    bad = []
+    for row in r0["rows"]:
+        if row["kind"] == "ok" and row.get("default_value_called") and \
+                not any("owner" in d and d.endswith("=True") and d.startswith("is:") for d in row["dec"]):
+            bad.append("the owner's stored default is returned for a class that is not the owner (" + "; ".join(row["dec"][-2:]) + ")")
+    attr_ci = ctx.p.find_class("Attr")
+    c_, m_ = ctx.p.lookup_method(attr_ci, "lookup_default_value")
+    fnn = m_[0].node
+    loops = [s for s in fnn.body if isinstance(s, ast.For) and "mro" in ast.unparse(s.iter)]
+    if not loops:
+        bad.append("no walk over the MRO of the instance's class")
+    else:
+        for s in fnn.body:
+            if s is loops[0]:
+                break
+            if any(isinstance(n, ast.Return) for n in ast.walk(s)):
+                bad.append("returns before walking the MRO")
+    rep.oblige("C09.NEAREST", "Attr.lookup_default_value", not bad, "; ".join(sorted(set(bad))[:1]))
+    for b_ in sorted(set(bad))[:2]:
+        rep.violate(Violation("C09.NEAREST", f"C09.NEAREST|{b_[:60]}", f"Attr.lookup_default_value: {b_}", f"{m_[0].module.relpath}:{fnn.lineno}", "Attr.lookup_default_value"))
